@@ -23,3 +23,10 @@ ENTRY["level_note"] = ("Trusted base as C02. The wrapper level of core/consensus
     "run_started_at_first_call, propose_twice_rejected, decided_value_is_hashed_value, subscribers_once_per_decision, "
     "no_run_after_expiry; tied by stream conswrap (real Consensus component as a one-member cluster with the real qbft.Run, "
     "racing Propose/Participate/handle calls behind a barrier, outcome accepted iff some linearisation of the model reproduces it).")
+
+# as for C02: the adversary of the theorems is "what Consensus.handle admits" (C05); the admission stream is part of this check
+from vlib.props_C05 import ENTRY as _E05
+ENTRY["streams"] = ENTRY["streams"] + [dict(_E05["streams"][0], seeds_quick=1)]
+ENTRY["monitor_sigs"] = ENTRY["monitor_sigs"] + ["qbftwire:tampered_accepted", "qbftwire:unsigned_justification_accepted",
+                                                 "qbftwire:cross_duty_accepted", "qbftwire:value_hash_mismatch_accepted",
+                                                 "qbftwire:malformed_accepted", "qbftwire:limit_exceeded_accepted"]
